@@ -69,7 +69,7 @@ Verbs == {"GET", "POST", "PUT", "DELETE", "PATCH", "HEAD", "OPTIONS", "TRACE", "
 
 \* security requirement shapes (the concrete schemes are declared by the design assembler, vlib/openapi_gen.py):
 \* a shape is a set of alternative requirements; a requirement is a set of schemes that must all pass + scopes
-SecShapes == {"basic", "apikey", "jwt", "oauth2", "jwt+apikey", "basic|apikey"}
+SecShapes == {"basic", "apikey", "jwt", "oauth2", "jwt+apikey", "basic|apikey", "jwt0", "apikey+oauth20"}
 ReqsOf(shape) ==
   CASE shape = "basic"        -> {RQ({Sch("basic", "basic")}, {})}
     [] shape = "apikey"       -> {RQ({Sch("key", "apikey")}, {})}
@@ -77,15 +77,19 @@ ReqsOf(shape) ==
     [] shape = "oauth2"       -> {RQ({Sch("oa", "oauth2")}, {"r", "w"})}
     [] shape = "jwt+apikey"   -> {RQ({Sch("jwt", "jwt"), Sch("key", "apikey")}, {"r"})}
     [] shape = "basic|apikey" -> {RQ({Sch("basic", "basic")}, {}), RQ({Sch("key", "apikey")}, {})}
+    [] shape = "jwt0"         -> {RQ({Sch("jwt", "jwt")}, {})}                          \* bearer schemes required without scopes
+    [] shape = "apikey+oauth20" -> {RQ({Sch("key", "apikey"), Sch("oa", "oauth2")}, {})}
     [] OTHER                  -> {}                     \* "none"
 \* where the credentials travel: user/password and bearer tokens in the Authorization header (which OpenAPI
 \* describes through the security scheme, never as a parameter); the API key in the X-Key header, which the
 \* decoder reads like any other header (required unless another alternative exists)
 CredParams(shape) ==
-  CASE shape \in {"apikey", "jwt+apikey"} -> {P("X-Key", "header", TRUE)}
+  CASE shape \in {"apikey", "jwt+apikey", "apikey+oauth20"} -> {P("X-Key", "header", TRUE)}
     [] shape = "basic|apikey"            -> {P("X-Key", "header", FALSE)}
     [] OTHER                             -> {}
-UsesJWTScopes(shape) == shape \in {"jwt", "jwt+apikey"}
+\* (the 2.0 document describes the scopes of a JWT scheme in text - in the operation when the requirement names scopes, and
+\*  in the securityDefinitions entry of the scheme whenever the scheme is used at all; both texts start with a newline)
+UsesJWTScopes(shape) == shape \in {"jwt", "jwt+apikey", "jwt0"}
 
 \* the DSL's inheritance: Security at a level replaces what the level above says, NoSecurity clears it
 EffSec(d, s, m) == IF m.sec # "inherit" THEN m.sec ELSE IF s.sec # "inherit" THEN s.sec ELSE d.apiSec
@@ -360,7 +364,7 @@ MalVals(a) ==
 
 \* what the schema validator sees for attribute a: the value as it travels
 Seen(a, w) == Carried(a, w.v)
-EmptyParam(a, c) == a.loc \in {"query", "header", "cookie"} /\ a.kind = "string" /\ c.s = "empty"
+EmptyParam(a, c) == a.loc \in {"query", "header", "cookie"} /\ ((a.kind = "string" /\ c.s = "empty") \/ (a.kind = "bytes" /\ c.n = 0))
 B64(n) == 4 * ((n + 2) \div 3)
 SchemaTypeOK(a, c) == CASE c.s = "negu" -> Dev("schema.uint_minimum_missing")
                         [] c.s \in {"frac", "text"} -> FALSE
